@@ -7,6 +7,7 @@ import Proofs.Lemmas.C18Date
 import Proofs.Lemmas.C18Series
 import Proofs.Lemmas.C18Order
 import Proofs.Lemmas.C18Build
+import Proofs.Lemmas.C18Assemble
 
 namespace C18
 open Series.Boot Series Series.Date
@@ -208,17 +209,11 @@ theorem combine_concatenates (env : Env) (it : Iter) (b : Builder) (t : TKey) (s
   obtain ⟨d, hd⟩ := combine_fold env F (fresh c0)
   exact ⟨d, by simpa [alookup, stepCell, fresh] using hd⟩
 
-/-- **series_order_independent_partial** — DUPE_REPLACE, one builder state: for any two map
-iteration orders (of the table's trials and of every trial's tests) every (benchmark, series)
-cell of the table ends up the same, provided duplicates of a point have distinct normalised
-experiment dates (clause W4/Det of the well-formedness; without it the first-visited duplicate
-wins on the real code).  The Benchmarks and Series axes are iteration independent unconditionally
-(`axes_order_independent`).
-GAP (not mechanised; covered by the correspondence and search layers only): (1) HashPairs,
-(2) the combine policy's value *multisets*, (3) independence of the *insertion* order, i.e. that
-builder states reached by permuted `Add` sequences are equivalent (same trials, same baseline
-hash, cell values equal as multisets, same hashToOrder) under W1–W3. -/
-theorem series_order_independent_partial (env : Env) (ho : StrictOrder env.lt) (it1 it2 : Iter)
+/-- **cells_iteration_order_independent** — DUPE_REPLACE, ANY builder state (not only reachable
+ones): for any two map iteration orders every (benchmark, series) cell of the table ends up the
+same, provided duplicates of a point have distinct normalised experiment dates.  (Subsumed, for
+reachable states, by `series_order_independent`; kept because it needs no invariant.) -/
+theorem cells_iteration_order_independent (env : Env) (ho : StrictOrder env.lt) (it1 it2 : Iter)
     (hv1 : it1.Valid) (hv2 : it2.Valid) (b : Builder) (t : TKey)
     (hdist : ∀ x ∈ contribs env Iter.id b t, ∀ y ∈ contribs env Iter.id b t,
       x.key = y.key → x.date = y.date → x = y)
@@ -237,6 +232,49 @@ theorem series_order_independent_partial (env : Env) (ho : StrictOrder env.lt) (
   have kx : x.key = sk := by simpa using hx'.2
   have ky : y.key = sk := by simpa using hy'.2
   exact hdist x (p1.mem_iff.mp hx'.1) y (p1.mem_iff.mp hy'.1) (kx.trans ky.symm) hd
+
+/-- **series_order_independent** — the comparison series depend only on the *set* of results:
+for any two insertion orders `evs1 ~ evs2` of the projected measurements, both duplicate policies,
+and any two map iteration orders (of the tables, of each table's trials, of each trial's tests —
+arbitrary permutations), `AllComparisonSeries` returns the same value: the same error outcome,
+the same tables in the same order, and per table the same Benchmarks, Series, HashPairs and the same
+points with the same date and the same numerator / denominator *multisets* (`TableOut` holds the
+samples sorted by bit pattern).  Hypothesis: the well-formedness `Spec.Series.WF` (W1–W5, W3c for
+combine) — each clause excludes a shape on which the real code IS order dependent (notes/C18.md);
+`TotalOrder env.le` holds for Go's string order (`bytesLe_totalOrder`). -/
+theorem series_order_independent (env : Env) (ho : TotalOrder env.le) (o : Opts) (pol : Policy)
+    (evs1 evs2 : List Ev) (hp : evs1.Perm evs2) (hwf : Spec.Series.WF env o pol evs1 = true)
+    (it1 it2 : Iter) (hv1 : it1.Valid) (hv2 : it2.Valid) :
+    allSeries env pol it1 (build o evs1) = allSeries env pol it2 (build o evs2) := by
+  have hw := WFp_of_WF hwf
+  unfold allSeries
+  rw [datesOk_congr env o pol hp hw, sortTableKeys_congr env ho o pol hp hw it1 it2 hv1 hv2]
+  split
+  · congr 1
+    apply List.map_congr_left
+    intro t _
+    exact tableOut_congr env ho o pol hp hw it1 it2 hv1 hv2 t
+  · rfl
+
+/-- the same, for results added in any order (a result contributes one measurement per unit) -/
+theorem series_order_independent_results (env : Env) (ho : TotalOrder env.le) (o : Opts) (pol : Policy)
+    (rs1 rs2 : List (List Ev)) (hp : rs1.Perm rs2) (hwf : Spec.Series.WF env o pol rs1.flatten = true)
+    (it1 it2 : Iter) (hv1 : it1.Valid) (hv2 : it2.Valid) :
+    allSeries env pol it1 (build o rs1.flatten) = allSeries env pol it2 (build o rs2.flatten) :=
+  series_order_independent env ho o pol _ _ hp.flatten hwf it1 it2 hv1 hv2
+
+/-- a non-trivial well-formed instance: the F10 shape (experiment 1 has a numerator only,
+experiment 2 numerator and baseline, same series point) under both policies' common clauses -/
+example :
+    let env : Env := { norm := Series.Date.normalize, le := bytesLe }
+    let o : Opts := { num := "num".toUTF8.toList, den := "den".toUTF8.toList }
+    let mk (role exp : String) (v : UInt64) : Ev :=
+      { unit := "sec".toUTF8.toList, table := [], bench := "Foo".toUTF8.toList, exp := exp.toUTF8.toList,
+        ser := "2020-02-02T00:00:00Z".toUTF8.toList, cmp := role.toUTF8.toList, nh := "abc".toUTF8.toList,
+        dh := "def".toUTF8.toList, val := v }
+    Spec.Series.WF env o .replace
+      [mk "num" "2020-01-01T00:00:00Z" 1, mk "num" "20200102T000000" 2, mk "den" "20200102T000000" 3] = true := by
+  decide +kernel
 
 /-- the Benchmarks and Series axes of a table do not depend on the map iteration order -/
 theorem axes_order_independent (env : Env) (ho : TotalOrder env.le) (it1 it2 : Iter)
@@ -290,35 +328,7 @@ numerator wins, W1) — and the assembly step from cells to points; see the GAP 
 theorem cells_insertion_order_independent (o : Opts) (evs1 evs2 : List Ev) (hp : evs1.Perm evs2) :
     (∀ key, (alookup key (build o evs1).tests).map sortBits = (alookup key (build o evs2).tests).map sortBits) ∧
     (∀ k, (alookup k (build o evs1).base).map (fun b => sortBits b.2) =
-          (alookup k (build o evs2).base).map (fun b => sortBits b.2)) := by
-  constructor
-  · intro key
-    rw [tests_exact, tests_exact]
-    have p := hp.filter (hitsTest o key)
-    cases h1 : evs1.filter (hitsTest o key) with
-    | nil =>
-      rw [h1] at p
-      rw [p.symm.eq_nil]
-    | cons x l =>
-      cases h2 : evs2.filter (hitsTest o key) with
-      | nil => rw [h1, h2] at p; exact absurd p.length_eq (by simp)
-      | cons y l' =>
-        rw [h1, h2] at p
-        simp only [Option.map_some]
-        rw [sortBits_perm (p.map _)]
-  · intro k
-    rw [base_exact, base_exact]
-    have p := hp.filter (hitsBase o k)
-    cases h1 : evs1.filter (hitsBase o k) with
-    | nil =>
-      rw [h1] at p
-      rw [p.symm.eq_nil]
-    | cons x l =>
-      cases h2 : evs2.filter (hitsBase o k) with
-      | nil => rw [h1, h2] at p; exact absurd p.length_eq (by simp)
-      | cons y l' =>
-        rw [h1, h2] at p
-        simp only [Option.map_some]
-        rw [sortBits_perm (p.map _)]
+          (alookup k (build o evs2).base).map (fun b => sortBits b.2)) :=
+  cells_perm o evs1 evs2 hp
 
 end C18
